@@ -1021,10 +1021,21 @@ static void gen_expr(Node *node) {
     gen_expr(node->cas_addr);
     push();
     gen_expr(node->cas_new);
+
+    // Compare-and-swap works on the object representation. Move the
+    // bits of a floating value to %rax.
+    if (node->cas_new->ty->kind == TY_FLOAT)
+      println("  movd %%xmm0, %%eax");
+    else if (node->cas_new->ty->kind == TY_DOUBLE)
+      println("  movq %%xmm0, %%rax");
+
     push();
     gen_expr(node->cas_old);
     println("  mov %%rax, %%r8");
-    load(node->cas_old->ty->base);
+    if (is_flonum(node->cas_old->ty->base))
+      println("  mov (%%rax), %s", reg_ax(node->cas_old->ty->base->size));
+    else
+      load(node->cas_old->ty->base);
     pop("%rdx"); // new
     pop("%rdi"); // addr
 
